@@ -65,7 +65,11 @@ claim("C06",
       "Static, all paths: every name field of every parse method completed through toAbsoluteName(token, origin) on success paths (must-pass over success exits), toAbsoluteName's three cases guarded by '@' / IsFqdn / non-empty origin, origin written only by the constructor and $ORIGIN, the three sibling explicit-TTL sites with the exact 'none yet or not by $TTL' update guard, $TTL by-directive, line start defaults, sub-parser inheritance for $INCLUDE and $GENERATE, iterator step/stop. The denotational equalities over all renderings (line-shape state machine outcome, comments/parentheses/quoting, TTL unit arithmetic, $GENERATE text) are not decided.",
       STATIC_NOTE, "must-pass over success exits (SSA), sibling-guard comparison with edge facts, who-may-write")
 
+claim("C03",
+      "Static: the three name-walking functions accept exactly the same limits after threshold normalisation (sum of label+1 <= 254, label <= 63); the two text-side siblings reject leading and adjacent dots and account escapes in step; the octets the name printers emit unescaped are disjoint from the zone lexer's structural characters, '.' and '@' (tables extracted from the code); the packer writes nothing unless IsFqdn(s); Fqdn's two cases. Octet-for-octet round trips over all 256 values and positions are not decided (value-level).",
+      STATIC_NOTE, "accumulator/threshold normalisation on SSA; character-class table extraction (AST); edge dominance")
+
 _pending = "rules for this property are designed (DESIGN.md §4) but not implemented yet; not claimed until they run"
-for p in ["C02","C03","C05"]:
+for p in ["C02","C05"]:
     na(p, _pending)
 na("C19", "every clause is an equality between index arithmetic on a runtime string and its label sequence; no pairing/ownership/ordering/table structure to decide statically (DESIGN.md §8)")
